@@ -13,23 +13,23 @@ open Q1t Q1t.Tableau Q1t.Spec.Pauli Q1t.Spec.Stab
 /-- Parameters of the model: phase table and conjugation function per gate name. -/
 structure Params where
   ph : List Nat
-  conj : String → Tab.Conj
+  conj : SGate → Tab.Conj
 
 abbrev Pair := Tab × Vec
 
-def stepT (pr : Params) (t : Tab) (name : String) (bits : List Nat) : Res Tab :=
-  t.applyGate pr.ph (pr.conj name) bits
+def stepT (pr : Params) (t : Tab) (g : SGate) (bits : List Nat) : Res Tab :=
+  t.applyGate pr.ph (pr.conj g) bits
 
-def stepV (n : Nat) (v : Vec) (name : String) (bits : List Nat) : Vec :=
-  match applyGate name n bits v with
+def stepV (n : Nat) (v : Vec) (g : SGate) (bits : List Nat) : Vec :=
+  match applyGateG g n bits v with
   | some w => Z8.canonRay w
   | none => []
 
 /-- successors of one pair under the closure generators; `none` if the model does not return `ok` -/
 def succs (pr : Params) (n : Nat) (tv : Pair) : Option (List Pair) :=
   (gens n).mapM fun g =>
-    match stepT pr tv.1 g.name g.bits with
-    | .ok t => some (t, stepV n tv.2 g.name g.bits)
+    match stepT pr tv.1 g.gate g.bits with
+    | .ok t => some (t, stepV n tv.2 g.gate g.bits)
     | _ => none
 
 def insertNew (acc : List Pair × List Pair) (tv : Pair) : List Pair × List Pair :=
@@ -54,11 +54,11 @@ def closure (pr : Params) (n fuel : Nat) : Option (List Pair) :=
 /-! ### the operations checked on every state -/
 
 /-- the library's primitive stabilizer gates -/
-def gates1 : List String := ["I", "X", "Y", "Z", "H", "S", "Sdg", "V", "Vdg"]
-def gates2 : List String := ["CX", "CY", "CZ", "Swap"]
+def gates1 : List SGate := SGate.all1
+def gates2 : List SGate := SGate.all2
 
 /-- every library stabilizer gate on every ordered tuple of distinct qubits -/
-def gateOps (n : Nat) : List (String × List Nat) :=
+def gateOps (n : Nat) : List (SGate × List Nat) :=
   (gates1.flatMap fun g => (List.range n).map fun q => (g, [q])) ++
   (gates2.flatMap fun g => (List.range n).flatMap fun a =>
     ((List.range n).filter (· != a)).map fun b => (g, [a, b]))
